@@ -38,6 +38,48 @@ def global_state():
     return st
 
 
+class FpMonitor:
+    """Floating-point-event tap.  numpy's error mode is set to 'call' around every case; the callback sees every divide / overflow /
+    underflow / invalid event and attributes it to the library (some frame of the raising call lies in the library's source directory)
+    or to the rest (the oracle's numpy calls on the dense data, the harness).  Behaviour is unchanged ('call' neither warns nor raises).
+    An event kind that occurs inside the library but nowhere in the oracle's computation means: under np.seterr(all='raise') (or with
+    warnings as errors) the library raises FloatingPointError on an input for which numpy on the dense data does not."""
+
+    def __init__(self):
+        self.libdir = None
+        self.lib = {}
+        self.other = set()
+
+    def callback(self, kind, flag):
+        f = sys._getframe(1)
+        depth = 0
+        where = None
+        while f is not None and depth < 60:
+            fn = f.f_code.co_filename
+            if fn.startswith(self.libdir):
+                where = "%s:%s" % (os.path.basename(fn), f.f_code.co_name)
+                break
+            f = f.f_back
+            depth += 1
+        if where:
+            self.lib.setdefault(kind, where)
+        else:
+            self.other.add(kind)
+
+    def run(self, prop, case):
+        import numpy as np
+        self.lib, self.other = {}, set()
+        old = np.seterrcall(self.callback)
+        try:
+            with np.errstate(all="call"):
+                return prop.run(case)
+        finally:
+            np.seterrcall(old)
+
+
+FP = FpMonitor()
+
+
 def run_one(prop, case, ctx):
     from .core import Result, INCONCLUSIVE, VIOLATED, violated
     ctx.take_alerts()
@@ -53,7 +95,12 @@ def run_one(prop, case, ctx):
         with warnings.catch_warnings():
             warnings.simplefilter("ignore")
             try:
-                res = prop.run(case)
+                if os.environ.get("RTMON_ERRSTATE") == "raise":
+                    import numpy as np
+                    with np.errstate(all="raise"):
+                        res = prop.run(case)
+                else:
+                    res = FP.run(prop, case)
             finally:
                 signal.alarm(0)
                 signal.signal(signal.SIGALRM, old)
@@ -70,6 +117,15 @@ def run_one(prop, case, ctx):
     except Exception:
         # harness failure (generator / model / tap): never a violation, never a pass
         return Result(INCONCLUSIVE, ["harness-error"], traceback.format_exc(limit=8), False)
+    if FP.libdir and FP.lib:
+        ctx.tick("fp-events-in-library")
+        only = sorted(k for k in FP.lib if k not in FP.other and k != "underflow")
+        if only:
+            res["tags"] = list(res["tags"]) + ["fp-lib-only:" + k for k in only]
+            if getattr(prop, "FP_STRICT", False) and res["verdict"] == "held":
+                k = only[0]
+                res = violated("the library's computation hits a floating-point '%s' event (in %s) that numpy's computation on the same data does not have: with np.seterr(all='raise') "
+                               "or warnings turned into errors this call raises FloatingPointError although the dense computation succeeds" % (k, FP.lib[k]), list(res["tags"]) + ["fp-event"])
     alerts = ctx.take_alerts()
     if alerts and res["verdict"] != VIOLATED:
         name, msg = alerts[0]
@@ -95,6 +151,7 @@ def main(argv=None):
     from . import cov, codec
     from .core import CTX, HELD, VIOLATED, UNDEFINED, INCONCLUSIVE
     cov_on = cov.start(os.path.join(repo, "npstructures"))
+    FP.libdir = os.path.join(os.path.realpath(repo), "npstructures") + os.sep
     CTX.lib = lib
     prop = importlib.import_module("rtmon.props." + a.prop.lower())
     if hasattr(prop, "setup"):
